@@ -499,11 +499,12 @@ func (peer *peer) llgrRestartTimerExpired(family bgp.Family) bool {
 
 	all := true
 	conf := peer.fsm.pConf.ReadCopy()
-	for i, a := range conf.AfiSafis {
-		if a.State.Family == family {
+	for i := range conf.AfiSafis {
+		if conf.AfiSafis[i].State.Family == family {
 			conf.AfiSafis[i].LongLivedGracefulRestart.State.PeerRestartTimerExpired = true
 		}
-		s := a.LongLivedGracefulRestart.State
+		// (the element itself, not a copy taken before the update above)
+		s := conf.AfiSafis[i].LongLivedGracefulRestart.State
 		if s.Received && !s.PeerRestartTimerExpired {
 			all = false
 		}
